@@ -88,6 +88,9 @@ def namespace(modname, **extra):
     ns["__pyvc_import__"] = _imp
     ns["__pyvc_imports__"] = {}
     ns.update(extra)
+    if "np" not in ns:       # a module that starts to use NumPy (module-level `import numpy as np`) gets the shim
+        from . import npshim
+        ns["np"] = ns["numpy"] = npshim.NP()
     return ns
 
 
